@@ -174,6 +174,17 @@ func regexpForRule(rule options.URLParameterRule) string {
 	return "(?:" + *rule.Pattern + ")"
 }
 
+// addAllowedGroups adds a group list to the AllowedGroups map, keeping the
+// groups that are already allowed (e.g. those of the generic allowed groups option)
+func (p *ProviderData) addAllowedGroups(groups []string) {
+	if p.AllowedGroups == nil {
+		p.AllowedGroups = make(map[string]struct{}, len(groups))
+	}
+	for _, group := range groups {
+		p.AllowedGroups[group] = struct{}{}
+	}
+}
+
 // setAllowedGroups organizes a group list into the AllowedGroups map
 // to be consumed by Authorize implementations
 func (p *ProviderData) setAllowedGroups(groups []string) {
